@@ -18,7 +18,7 @@ RULE = ("My own writer emits known values in every documented text format (event
         "any position, repr(float) incl. exponents / negatives / denormals / "
         "17-digit values and arbitrary Unicode labels (no newline, no leading/"
         "trailing whitespace, possibly containing the delimiter and '#'); each file "
-        "is loaded by the real loader from a temp path and from a StringIO; the "
+        "is loaded by the real loader from a temp path, a StringIO and a duck-typed (non-IOBase) file object; the "
         "results must equal the written values bit for bit, in order, and agree "
         "with each other. Single-fault corruptions (column removed / added, number "
         "replaced by junk, extra line in key/tempo files, tempo weight outside "
@@ -189,6 +189,13 @@ def make_file(r, fmt):
                             ("%", r"[#%]")])
         kw = dict(kw, comment=pat)
     text, linenos, ncom = write_rows(r, rows, sep, cm)
+    if fmt == "ragged" and r.random() < 0.2:
+        # header=True with the header written as a comment line (as the files that
+        # ship with the library do): every data row must still be returned
+        kw = dict(kw, header=True)
+        text = cm + " time values\n" + text
+        linenos = [n + 1 for n in linenos]
+        ncom += 1
     return {"fmt": fmt, "text": text, "kw": kw, "expect": expect, "sep": sep,
             "linenos": linenos, "ncom": ncom, "rows": rows, "marker": cm}
 
@@ -263,6 +270,26 @@ def matches(expect, got):
     return False
 
 
+class _Duck:
+    """An open 'file object' by duck typing only (not an io.IOBase subclass), like a
+    codecs stream or a tempfile wrapper."""
+
+    def __init__(self, text):
+        self._s = _io.StringIO(text)
+
+    def read(self, *a):
+        return self._s.read(*a)
+
+    def readline(self, *a):
+        return self._s.readline(*a)
+
+    def readlines(self, *a):
+        return self._s.readlines(*a)
+
+    def __iter__(self):
+        return iter(self._s)
+
+
 def load_both(mods, f, scratch, k):
     """Load from a temp path and from a StringIO; returns [(how, outcome, value)]."""
     io_mod = mods["io"]
@@ -271,7 +298,8 @@ def load_both(mods, f, scratch, k):
     with open(path, "w", encoding="utf-8", newline="\n") as fh:
         fh.write(f["text"])
     out = []
-    for how, src in (("path", path), ("stringio", _io.StringIO(f["text"]))):
+    for how, src in (("path", path), ("stringio", _io.StringIO(f["text"])),
+                     ("file-like", _Duck(f["text"]))):
         try:
             with warnings.catch_warnings(record=True) as wl:
                 warnings.simplefilter("always")
@@ -293,7 +321,7 @@ def _viol(ctx, f, site, clause, what, mech=""):
 def check_roundtrip(ctx, mods, f, scratch, k):
     site = "io." + LOADER[f["fmt"]]
     res = load_both(mods, f, scratch, k)
-    ctx.ev(2)
+    ctx.ev(3)
     ctx.hist("roundtrip", f["fmt"])
     vals = []
     for how, outcome, val, nwarn in res:
@@ -394,7 +422,7 @@ def check_fault(ctx, mods, r, f, scratch, k):
             lineno = len(lines)
     g = dict(f, text="\n".join(lines) + "\n", rows=rows)
     res = load_both(mods, g, scratch, k)
-    ctx.ev(2)
+    ctx.ev(3)
     ctx.hist("faults", "%s/%s" % (fmt, fault))
     for how, outcome, val, _ in res:
         if outcome != "raise" or not isinstance(val, ValueError):
@@ -404,7 +432,8 @@ def check_fault(ctx, mods, r, f, scratch, k):
                       else "raised " + type(val).__name__))
             return
         if want_row:
-            idx = lineno if fmt != "ragged" else lineno - 1
+            # the ragged loader numbers rows from 0, or from 1 with header=True
+            idx = lineno if fmt != "ragged" or f["kw"].get("header") else lineno - 1
             if (":%d:" % idx) not in str(val):
                 _viol(ctx, g, site, "error-does-not-name-row/" + fault,
                       "%s (%s): ValueError message %r does not name row %d" % (
@@ -433,7 +462,7 @@ def check_convention(ctx, mods, r, scratch, k):
     f.update(rows=[["x"]], expect=None, ncom=0, linenos=[])
     site = "io." + LOADER[f["fmt"]]
     res = load_both(mods, f, scratch, k)
-    ctx.ev(2)
+    ctx.ev(3)
     ctx.hist("conventions", kind)
     for how, outcome, val, nwarn in res:
         if outcome == "raise":
